@@ -126,7 +126,7 @@ func (r *replayer) replayTokenSpace(t Tables, seed int64, workers int) int64 {
 }
 
 // names a reference may carry: arbitrary idstrings, including the operator words, listed ids and the Ref prefixes themselves
-var refNames = []string{"x", "1.0", "A-b", "MIT", "y", "2", "spdx-tool-1.2", "AND", "OR", "WITH", "and", "with", "LicenseRef-a", "DocumentRef-d", "GPL-2.0-or-later", "only", "-", "."}
+var refNames = []string{"x", "1.0", "A-b", "MIT", "y", "2", "spdx-tool-1.2", "AND", "OR", "WITH", "and", "with", "LicenseRef-a", "DocumentRef-d", "GPL-2.0-or-later", "only", "-", ".", "bsd.or.mit", "a.and", "x.with.y", "or", "with"}
 
 func containsClass(seq []string, c string) bool {
 	for _, x := range seq {
